@@ -31,7 +31,7 @@ def register(J):
                 defs = ["-DNLAYERS=%d" % nl, "-DNPOST=%d" % npost, "-DSUFFIX_ARG=" + sa, "-DSUFFIX_NORM=" + sn]
                 if quick and nl == 2 and npost == 0:
                     defs.append("-DNAME_NULL=1")
-                J.append(Job("history.l%d.p%d.%s" % (nl, npost, sname), ["C01", "C06", "C12", "C13", "C20"],
+                J.append(Job("history.l%d.p%d.%s" % (nl, npost, sname), ["C01", "C06", "C12", "C13", "C20", "C16"],
                              "harness/history.c", sources=["lib/readconfig.c", "lib/helpers.c"], stubs=["stubs/h1.c"],
                              contracts=SHIM, unwind=12, post_unwindset=us, tier="T2", defines=defs,
                              tiers=Q if quick else T, timeout=900, mem_gb=6, nobody_ok=[".*"],
@@ -54,7 +54,7 @@ def register(J):
         if suffix == "":
             defs.append("-DSUFFIX_EMPTY=1")
         J.append(Job("dropins.p%d.s%s.pre%d" % (npost, suffix.replace(".", "dot") or "none", pre),
-                     ["C01", "C06", "C13", "C20", "C04"], "harness/dropins.c",
+                     ["C01", "C06", "C13", "C20", "C04", "C16"], "harness/dropins.c",
                      sources=["lib/mergefiles.c", "lib/helpers.c"], stubs=["stubs/h2.c"], contracts=SHIM,
                      unwind=14, post_unwindset={"traverse_conf_dirs.0": npost + 1, "check_conf_dir.0": 3,
                                                 "check_conf_dir.1": 3, "realloc.0": 9},
